@@ -23,7 +23,9 @@ PRECISIONS = (1e-4, 1e-2)
 REAL_INPUTS = [('file', '3SGB'), ('file', '1HPX'), ('file', '4DFR'), ('file', '1FTJ'),
                ('pair', 'ASP', 'LYS', 2.8, 'mid'), ('pair', 'ACT', 'MAM', 2.9, 'exposed'), ('pair', 'CA', 'GLU', 2.6, 'mid'),
                ('pair', 'PYR', 'GLU', 2.8, 'deep'), ('pair', 'MPO', 'ARG', 3.0, 'exposed'), ('pair', 'MSH', 'HIS', 3.2, 'exposed'),
-               ('pair', 'CYS', 'CYS', 2.03, 'exposed'), ('pair', 'CL', 'LYS', 3.0, 'mid'), ('pair', 'N+', 'C-', 3.0, 'exposed')]
+               ('pair', 'CYS', 'CYS', 2.03, 'exposed'), ('pair', 'CL', 'LYS', 3.0, 'mid'), ('pair', 'N+', 'C-', 3.0, 'exposed'),
+               # groups whose model pKa comes from the per-residue custom table (pseudo-nucleotides, see C01)
+               ('dna', 'DA', 'N1'), ('dna', 'DG', 'N7'), ('dna', 'DT', 'N3'), ('dna', 'DC', 'N3')]
 
 
 def sigs(tier):
@@ -49,6 +51,11 @@ def assignments(sig, tier):
     return out
 
 
+SEQUENCES = [(('pair', 'ASP', 'LYS', 2.8, 'mid'), ('pair', 'PYR', 'GLU', 2.8, 'deep')), (('pair', 'N+', 'C-', 3.0, 'exposed'), ('file', '3SGB')),
+             (('pair', 'CA', 'GLU', 2.6, 'mid'), ('pair', 'ACT', 'MAM', 2.9, 'exposed')), (('dna', 'DA', 'N1'), ('pair', 'CYS', 'CYS', 2.03, 'exposed')),
+             (('file', '1HPX'), ('pair', 'MSH', 'HIS', 3.2, 'exposed'))]
+
+
 def plan(tier, seed):
     shards = []
     for sig in sigs(tier):
@@ -60,6 +67,8 @@ def plan(tier, seed):
         if tier == 'quick' and inp[0] == 'file' and inp[1] in ('4DFR', '1FTJ'):
             continue
         shards.append(('real', list(inp), None))
+    for a, b in SEQUENCES:
+        shards.append(('sequence', [list(a), list(b)], None))
     return dict(shards=shards, exhaustive=True,
                 rule=('group multisets over letters %s (A=ASP acid, B=LYS base, Y=TYR, H=HIS) of size <= %d incl. the empty '
                       'set; predicted pKa of every group from {-3,0,3.8,6.5,7,10.5,14,17} (sorted within equal letters); '
@@ -166,17 +175,27 @@ def run_shard(shard, ctx):
             if a:
                 acc.nontrivial_n += 1
             acc.outcomes['%s' % a] += 1
+    elif kind == 'sequence':
+        run_case(dict(kind='sequence', inps=a), ctx, acc)
     else:
         run_case(dict(kind='real', inp=a), ctx, acc)
     return acc
 
 
 def real_mol(inp, seed, opts=()):
-    if inp[0] == 'file':
-        text = gen.library().text(inp[1])
-    else:
-        text = gen.to_text(gen.pair(inp[1], inp[2], inp[3], level=inp[4], offset=gen.seed_offset(seed)))
+    text = real_text(inp, seed)
     return pk.run(text, opts), text
+
+
+def real_text(inp, seed):
+    if inp[0] == 'file':
+        return gen.library().text(inp[1])
+    if inp[0] == 'dna':
+        from . import c01
+        frag = c01.dna_fragment(inp[1], inp[2]).translate((10000, 10000, 10000))
+        pep = gen.S(c01.build_window(dict(key='3SGB', chain='I', index=20, oxt=1)))
+        return gen.to_text(pep.items + ['TER\n'] + frag.translate((30000, 0, 0)).items)
+    return gen.to_text(gen.pair(inp[1], inp[2], inp[3], level=inp[4], offset=gen.seed_offset(seed)))
 
 
 def run_case(case, ctx, acc):
@@ -185,6 +204,28 @@ def run_case(case, ctx, acc):
         pf.set_pkas(mol, case['pkas'])
         oracle(mol, case, acc, text=pk.pka_text(mol))
         acc.n += 1
+    elif case['kind'] == 'sequence':
+        # two containers alive at once: every query must describe its own container, in any order of querying
+        ma, _ = real_mol(case['inps'][0], ctx.seed)
+        mb, _ = real_mol(case['inps'][1], ctx.seed)
+        oracle(ma, dict(case, queried='first-after-second-run'), acc, lattice=False)
+        oracle(mb, dict(case, queried='second'), acc, lattice=False)
+        oracle(ma, dict(case, queried='first-again'), acc, text=pk.pka_text(ma), lattice=False)
+        for name in ma.conformation_names:   # a single conformation after the average
+            grid = (0.0, 14.0, 1.0)
+            prof = ma.get_charge_profile(conformation=name, grid=grid)
+            tri = pf.triples(ma, name)
+            for ph, qu, qf in prof:
+                ru, rf = pf.ref_totals(tri, ph)
+                if abs(qu - ru) > 1e-9 or abs(qf - rf) > 1e-9:
+                    acc.viols.append(Viol(dict(case, queried='conformation-after-average'), 'hh', 'charge-profile-not-sum-of-groups/conformation',
+                                          '%s pH %s: (%r,%r) reference (%r,%r)' % (name, ph, qu, qf, ru, rf)))
+                    break
+        for v in acc.viols:
+            v['case'] = case
+        acc.n += 1
+        acc.nontrivial.add(jhash(case))
+        acc.outcomes['sequence'] += 1
     else:
         mol, text = real_mol(case['inp'], ctx.seed)
         oracle(mol, case, acc, text=pk.pka_text(mol), lattice=False)
